@@ -21,8 +21,29 @@ Qed.
 Definition pr0 (p : prog) : promise := mkPr (lexdecls p) (vardecls p).
 Definition e0 (p : prog) : env := [(O, false, vardecls p ++ lexdecls p)].
 
+(* the fragment without default values is part of the fragment with them *)
+Lemma params_only_pcore_d ps : params_only ps = true -> pcore_d ps = true /\ default_names ps = [].
+Proof.
+  induction ps; cbn; intros H; try discriminate; [split; reflexivity|].
+  destruct d; try discriminate. apply IHps. exact H.
+Qed.
+
+Lemma core_core_d p : core p = true -> core_d p = true.
+Proof.
+  induction p; cbn [core core_d]; intros H; try discriminate; try reflexivity.
+  - apply IHp. exact H.
+  - apply andb_true_iff in H. destruct H as [H1 H2]. rewrite H1, (IHp H2). reflexivity.
+  - apply andb_true_iff in H. destruct H as [H1 H2]. rewrite (IHp1 H1), (IHp2 H2). reflexivity.
+  - destruct nm; [discriminate|]. apply andb_true_iff in H. destruct H as [H H3]. apply andb_true_iff in H. destruct H as [H1 H2].
+    destruct (params_only_pcore_d _ H1) as [Q1 Q2]. rewrite Q1, Q2, (IHp2 H2), (IHp3 H3). reflexivity.
+  - apply andb_true_iff in H. destruct H as [H H3]. apply andb_true_iff in H. destruct H as [H1 H2].
+    destruct (params_only_pcore_d _ H1) as [Q1 Q2]. rewrite Q1, Q2, (IHp2 H2), (IHp3 H3). reflexivity.
+  - apply andb_true_iff in H. destruct H as [H H4]. apply andb_true_iff in H. destruct H as [H H3]. apply andb_true_iff in H. destruct H as [H1 H2].
+    rewrite H1, H2, (IHp2 H3), (IHp3 H4). reflexivity.
+Qed.
+
 Lemma am_program p :
-  core p = true -> program_ok p = true ->
+  core_d p = true -> program_ok p = true ->
   exists a' fr',
     arun init_astate (program_events p) = ARun a' /\ AInv a' [(fr', pr0 p)] /\ fid fr' = O /\
     (forall y, In y (pnames (pr0 p)) -> In y (dnames fr')) /\
@@ -41,13 +62,15 @@ Proof.
       + intros y fs [].
       + constructor.
       + constructor.
-      + reflexivity.
+      + split; [lia|intros y []].
       + intros g [].
     - intros fp [<-|[]]. cbn. lia.
     - intros s x []. }
-  destruct (run_core p Hc a0 F0 (pr0 p) [] A0 Hnd) as (a' & fr' & rest' & R & A' & G & P1 & P2 & F & N).
+  destruct (run_core p Hc a0 F0 (pr0 p) [] A0 Hnd) as (a' & fr' & rest' & R & A' & G & P1 & P2 & _ & _ & F & N).
   { intros x Hx. split; [exact Hx|intros []]. }
   { intros x Hx. cbn. exact Hx. }
+  { rewrite (core_d_headdecls p Hc). constructor. }
+  { rewrite (core_d_headdecls p Hc). intros x []. }
   { exact Hok. }
   pose proof (grow_shape _ _ _ _ G) as Hs. cbn in Hs. destruct rest' as [|g r]; [|discriminate].
   injection Hs as Hfid Hfunc.
@@ -90,7 +113,7 @@ Proof.
 Qed.
 
 Theorem resolution_correct_core p :
-  core p = true -> program_ok p = true -> Z.of_nat (occurrences p) < 65536 ->
+  core_d p = true -> program_ok p = true -> Z.of_nat (occurrences p) < 65536 ->
   exists ps,
     run_program p = Running ps /\
     let st := pst ps in
@@ -209,3 +232,27 @@ Example example_partition :
   option_map (canon Nat.eqb) (occurrence_vars example_prog) = Some (canon target_eqb (spec_resolve example_prog))
   /\ canon target_eqb (spec_resolve example_prog) = [0; 1; 0; 0; 1; 1; 2; 3; 4; 3; 5; 5; 6; 4; 7; 8; 7; 2]%nat.
 Proof. vm_compute. split; reflexivity. Qed.
+
+(* default values: an earlier parameter, an outer binding, a free name, a closure in a default value with its
+   own parameters and defaults, shadowing of a default's name by an inner function                            *)
+(*   let a; function f(b, c = b, d = a, e = g, h = function(i, j = i){ i; j; b; k }, l = (m = b) => { m; a }) { b; c; let n; { var o } n; o }
+     var k; a; f                                                                                               *)
+Definition example_prog_d : prog :=
+  Decl DLex 1 (Decl DFun 6
+    (Func None
+       (Decl DParam 2 (Decl DParam 3 (Ref 2 (Decl DParam 4 (Ref 1 (Decl DParam 5 (Ref 7 (Decl DParam 8
+         (Func None (Decl DParam 9 (Decl DParam 10 (Ref 9 Done))) (Ref 9 (Ref 10 (Ref 2 (Ref 11 Done))))
+         (Decl DParam 12
+         (Arrow (Decl DParam 13 (Ref 2 Done)) (Ref 13 (Ref 1 Done))
+         Done)))))))))))
+       (Ref 2 (Ref 3 (Decl DLex 14 (Block (Decl DVar 15 Done) (Ref 14 (Ref 15 Done))))))
+    (Decl DVar 11 (Ref 1 (Ref 6 Done))))).
+
+Example example_d_hyps :
+  core_d example_prog_d = true /\ core example_prog_d = false /\ program_ok example_prog_d = true
+  /\ Z.of_nat (occurrences example_prog_d) < 65536.
+Proof. vm_compute. repeat split; reflexivity. Qed.
+
+Example example_d_partition :
+  option_map (canon Nat.eqb) (occurrence_vars example_prog_d) = Some (canon target_eqb (spec_resolve example_prog_d)).
+Proof. vm_compute. reflexivity. Qed.
